@@ -182,7 +182,7 @@ def task_of(rel):
 
 
 def hist_ops(nfiles, with_remodel):
-    ops = [("modify", i) for i in range(nfiles)] + [("delete", i) for i in range(nfiles)] + [("deldir",)]
+    ops = [("modify", i) for i in range(nfiles)] + [("delete", i) for i in range(nfiles)] + [("deldir",), ("deldir2",)]
     ops += [("restore", None), ("restore", "go"), ("restore", "stop")]
     # a second backup request under the default name, given explicitly / omitted / empty: refused, nothing changes
     ops += [("backup", "default_back"), ("backup", None), ("backup", "")]
@@ -243,6 +243,11 @@ def run_history(rec, bm_mod, cli, root, selection, hist):
             elif op[0] == "deldir":
                 shutil.rmtree(os.path.join(root, "sub-01"), ignore_errors=True)
                 for rel in [r for r in model if r.startswith("sub-01/")]:
+                    model.pop(rel)
+            elif op[0] == "deldir2":
+                # two directory levels at once (sub-02/EEG/...)
+                shutil.rmtree(os.path.join(root, "sub-02"), ignore_errors=True)
+                for rel in [r for r in model if r.startswith("sub-02/")]:
                     model.pop(rel)
             elif op[0] in ("backup", "stale-backup"):
                 present = [os.path.join(root, r) for r in sorted(model)]
